@@ -25,6 +25,9 @@
          accumulates violation records in `viols`:
            FailedStepKeepsOld    a successful rename onto "cur" in a window in which an open / write /
                                  fsync had failed                      -> kind rename_after_failed_step
+                                 a write / fsync that FAILS on a descriptor whose file has already been renamed
+                                 onto "cur" in this save (steps out of order: rename, then fsync): the
+                                 unsuccessful save has replaced the good file      -> kind replaced_then_step_failed
            DurableBeforeReplace  a successful rename onto "cur" of an inode whose complete content is
                                  not known durable (no successful fsync after the last write), and not
                                  because the fsync failed                -> kind no_fsync_before_rename
@@ -165,6 +168,10 @@ Mon(e) ==
             IN /\ viols' = viols \o r1 \o r2
                /\ taint' = [taint EXCEPT ![i] = @ \cup (IF afterFail THEN {"rename_after_failed_step:" \o Step1(wfail)} ELSE {})
                                                      \cup (IF noSync THEN {"no_fsync_before_rename"} ELSE {})]
+     ELSE IF e.op \in {"write", "fsync"} /\ ~e.ok /\ fds[e.fd] # 0 /\ dir["cur"] = fds[e.fd]
+       THEN /\ viols' = Append(viols, [tr |-> e.tr, k |-> e.k, kind |-> "replaced_then_step_failed",
+                                        step |-> IF e.op = "fsync" THEN "fsync" ELSE "write", steps |-> wfail \cup {IF e.op = "fsync" THEN "sync" ELSE "write"}])
+            /\ taint' = [taint EXCEPT ![fds[e.fd]] = @ \cup {"replaced_then_step_failed:" \o e.op}]
      ELSE IF e.op = "open" /\ e.ok /\ e.name = "cur" /\ dir["cur"] # 0
        THEN /\ taint' = [taint EXCEPT ![dir["cur"]] = @ \cup {"in_place"}] /\ viols' = viols
      ELSE UNCHANGED <<taint, viols>>
